@@ -23,6 +23,7 @@ and the unstopped ARG at absorbing two-locus states is QCs_absorbing. Partial: P
 This file restates the theorems the property rests on (full statements; proofs are in PGProofs/).
 Generated once by harness/mkprops.py from harness/props_table.py + PGProperties/extra/C04.lean.in; committed as source.
 -/
+import PGProofs.DriverPath
 import PGProofs.Assembly
 import PGProofs.Bridge
 import PGProofs.BridgeBC
@@ -33,6 +34,12 @@ set_option pp.fieldNotation.generalized false
 
 namespace PG.C04
 open PG
+
+/-- the dense generator the DRIVER builds equals rateEntry entry by entry -/
+theorem driver_matrix : ∀ (states : List State), List.Nodup states → ∀ (tr : List ((State × State) × ℚ)) (i j : ℕ), i < List.length states → j < List.length states → Array.getD (Array.getD (denseGen (List.length states) (sparseRows states tr)) i #[]) j 0 = rateEntry states tr i j := @PG.denseGen_sparseRows
+
+/-- hence equals the matrices of the headline theorems -/
+theorem driver_matrix_is_codeMat : ∀ (G : ℕ → Graph) (step : State → Targets) (init : State) (fuel : ℕ), bfs step init fuel = some (G 0) → ∀ (e : ℕ) (i j : Fin (List.length (G 0).visited)), Assembly.codeMat G e i j = Array.getD (Array.getD (denseGen (List.length (G 0).visited) (sparseRows (G 0).visited (G e).transitions)) ↑i #[]) (↑j) 0 := @PG.codeMat_eq_denseGen_bfs
 
 /-- every count vector with the right total is a state -/
 theorem all_sample_configs_visited : ∀ {D : ℕ} {m : Model} {cinit : Fin D → ℕ} {ts : ℕ → Fin D → ℚ} {mig : ℕ → Fin D → Fin D → ℚ} {r : ℕ → ℚ} {fuel : ℕ → ℕ} {G : ℕ → Graph}, (∀ (e : ℕ), bfs (transit m (mkEpoch (ts e) (mig e) (r e))) (encLC cinit) (fuel e) = some (G e)) → ∀ (c : Fin D → ℕ), ∑ d, c d = ∑ d, cinit d → encLC c ∈ (G 0).visited := @PG.Assembly.lineage_all_configs_visited
@@ -87,6 +94,8 @@ theorem encLC_injective : type_of% @PG.encLC_injective := @PG.encLC_injective   
 
 end PG.C04
 
+#print axioms PG.C04.driver_matrix
+#print axioms PG.C04.driver_matrix_is_codeMat
 #print axioms PG.C04.all_sample_configs_visited
 #print axioms PG.C04.alpha_is_indicator
 #print axioms PG.C04.visited_independent_of_epoch
